@@ -1418,7 +1418,7 @@ class Router(NetworkNode, discriminator="router"):
             self.sys_log.info(f"Frame blocked at port {at_port} by rule {rule}")
             return
 
-        if frame.ip and self.software_manager.arp:
+        if frame.ip and self.software_manager.arp and frame.udp and frame.is_arp:  # bindings are learnt from ARP packets only
             self.software_manager.arp.add_arp_cache_entry(
                 ip_address=frame.ip.src_ip_address,
                 mac_address=frame.ethernet.src_mac_addr,
